@@ -28,6 +28,11 @@ func (fs *FS) toOSPath(goos string, separator rune, op, fsPath string) (string, 
 	if !hackpadfs.ValidPath(fsPath) {
 		return "", &hackpadfs.PathError{Op: op, Path: fsPath, Err: hackpadfs.ErrInvalid}
 	}
+	if goos == goosWindows && (strings.ContainsAny(fsPath, `\:`) || strings.ContainsAny(fs.root, `\:`)) {
+		// Like os.DirFS: a backslash or colon is an ordinary character of an FS path, but on Windows it is a separator
+		// or volume marker. Passing it on would let "..\\x" escape the root.
+		return "", &hackpadfs.PathError{Op: op, Path: fsPath, Err: hackpadfs.ErrInvalid}
+	}
 	fsPath = path.Join("/", fs.root, fsPath)
 	filePath := joinSepPath(string(separator), fs.getVolumeName(goos), fromSeparator(separator, fsPath))
 	return filePath, nil
